@@ -210,7 +210,7 @@ def gamete_case(ctx, cs, answers=None):
                 ctx.nontriv(digest((fnname, cs["xop"], cs["sel"], case["answers"])))
         else:
             complete = False
-        if ctx.evaluations % 5001 == 1 and ok:
+        if ctx.evaluations in (40, 3000) and ok:
             ctx.sample(dict(case, weight=str(ch.weight), gamete_source_copies=[list(g) for g in res["prov"]]))
     ctx.state(digest((fnname, cs["xop"], cs["sel"], cs.get("mode"))))
     ctx.count(f"gamete:{fnname}:configs")
@@ -471,6 +471,8 @@ def map_case(ctx, cs, answers=None):
     if ctx.guard(law, case=case0, sig_prefix=msig):
         ctx.count("exact-laws-verified")
         ctx.count("exact-probabilities-compared", len(dist))
+        ctx.sample(dict(case0, map_name=M["name"], genpos=st["gpos"], xoprob_assigned=xop,
+                        exact_law={"".join(map(str, g)): str(w) for g, w in sorted(dist.items())[:4]}))
 
 
 def map_cases(tier, seed):
@@ -535,7 +537,7 @@ def cross_case(ctx, cs, answers=None):
             ctx.nontriv(digest((proto, cs["xconfig"], cs["xop"], nm, npg, nself, case["answers"])))
         else:
             complete = False
-        if ctx.evaluations % 20001 == 1 and ok:
+        if ctx.evaluations in (40, 3000) and ok:
             ctx.sample(dict(case, weight=str(ch.weight), progeny=[[["%d.%d.%d" % c for c in cp] for cp in p] for p in res["key"]]))
     ctx.state(digest((proto, cs["xconfig"], cs["xop"], nm, npg, nself)))
     ctx.count(f"cross:{proto}:configs")
@@ -680,7 +682,13 @@ def shards(tier, seed):
     big = sorted(cross_cases(tier, seed), key=lambda c: -c["_cost"])
     for ch in _chunks(big, 48 if T else 24):
         out.append(("cross", ch))
-    return out
+    # the longest shards first (better packing), but one shard of every layer at the very front so that the few
+    # recorded samples span all layers
+    firsts, rest, seen = [], [], set()
+    for sp in out:
+        (rest if sp[0] in seen else firsts).append(sp)
+        seen.add(sp[0])
+    return firsts + [sp for sp in rest if sp[0] == "cross"] + [sp for sp in rest if sp[0] != "cross"]
 
 
 def run_shard(spec, ctx):
